@@ -43,8 +43,10 @@ def run(tier, opts):
         good.extend(c)
         ck.case(str(c[0].get("case")) + ":" + str(c[0].get("log")) + ":" + str(c[0].get("n")), c[0].get("n", 0) >= 2)
     vf.write_ndjson(trace + ".v", good)
-    common.validate_trace(ck, "Trace_Queries", trace + ".v", "query generation", "trace",
-                          keyfn=lambda case, bad: f"trace:{bad.get('ev')}:log={case[0].get('log')},n={case[0].get('n')}")
+    ok = common.validate_trace(ck, "Trace_Queries", trace + ".v", "query generation", "trace",
+                               keyfn=lambda case, bad: f"trace:{bad.get('ev')}:log={case[0].get('log')},n={case[0].get('n')}")
+    if ok and (opts.get("selftest") or tier == "thorough"):
+        common.selftest_trace(ck, "Trace_Queries", trace + ".v", [("queries", "out"), ("queries.ret", "out"), ("points", "pts"), ("points", "gen"), ("squeeze", "out"), ("squeeze", None)])
     for c in cases[:1] + cases[len(cases) // 2:len(cases) // 2 + 1]:
         q = [r for r in c if r["ev"] == "queries"]
         ck.sample({"log_size": c[0].get("log"), "n": c[0].get("n"), "out": q[0]["out"] if q else None})
